@@ -214,6 +214,23 @@ func c07Queries(thorough bool) []c07Q {
 			out = append(out, c07Q{&qQuery{items: v, from: from, groupBy: gb, limit: -1, offset: -1, mayReject: true}, "group-by/alias-collides-with-column"})
 		}
 	}
+	// ... and an aggregate whose alias is the name of a grouping column (in front of it and behind it): rejected as
+	// ambiguous, or answered with the real column as the grouping column
+	for _, v := range [][]qItem{
+		{{kind: "count*", alias: "g1"}, {kind: "col", col: qRef{"", "g1"}}},
+		{{kind: "col", col: qRef{"", "g1"}}, {kind: "count*", alias: "g1"}},
+		{{kind: "count", col: qRef{"", "v"}, alias: "g2"}, {kind: "col", col: qRef{"", "g1"}}, {kind: "col", col: qRef{"", "g2"}}},
+		{{kind: "avg", col: qRef{"", "w"}, alias: "g1"}, {kind: "col", col: qRef{"t", "g1"}}},
+	} {
+		gb := []qRef{{"", "g1"}}
+		if len(v) == 3 {
+			gb = []qRef{{"", "g1"}, {"", "g2"}}
+		}
+		if v[len(v)-1].col.qual == "t" {
+			gb = []qRef{{"t", "g1"}}
+		}
+		out = append(out, c07Q{&qQuery{items: v, from: from, groupBy: gb, limit: -1, offset: -1, mayReject: true}, "group-by/aggregate-alias-collides-with-column"})
+	}
 	// on top of a JOIN: group t by g1, counting matching rows of a second table
 	joins := []qJoin{{table: "t"}, {kind: "JOIN", table: "s", on: &qCond{atoms: []qAtom{{qc("t", "g2"), qc("s", "k"), "="}}}}}
 	ljoins := []qJoin{{table: "t"}, {kind: "LEFT JOIN", table: "s", on: &qCond{atoms: []qAtom{{qc("t", "g2"), qc("s", "k"), "="}}}}}
